@@ -11,10 +11,11 @@
 #include "verif.h"
 
 /* ---- tls_record_recv ---- */
-static size_t g_recv_total;
+static size_t g_recv_total; static uint8_t *g_record_base;
 ssize_t recv(int fd, void *buf, size_t len, int flags)
 {
 	__CPROVER_assert(__CPROVER_w_ok(buf, len), "recv() destination has room for the bytes requested");
+	__CPROVER_assert((uint8_t *)buf == g_record_base + g_recv_total, "received bytes are stored contiguously in arrival order (short reads included)");
 	ssize_t n = (ssize_t)nondet_size();
 	ASSUME(n >= 1 && (size_t)n <= len);            /* arbitrary short read; (errors / EOF: separate obligation) */
 	/* only the 5 header bytes influence control flow: give them arbitrary values, leave the body unspecified */
@@ -27,6 +28,7 @@ void perror(const char *s) { }
 void h_record_recv(void)
 {
 	uint8_t *record = malloc(TLS_MAX_RECORD_SIZE); ASSUME(record);      /* the size every caller provides */
+	g_record_base = record;
 	size_t recordlen = 0;
 	int ret = tls_record_recv(record, &recordlen, 3);
 	if (ret == 1) {
